@@ -102,6 +102,7 @@ class Skeleton:
         self.optvars = {}
         self.variants = variants or []      # extra runs of the same input with some options overridden (relational oracles)
         self.alt_templates = []             # extra runs on other source texts sharing the same leaves (relational oracles over inputs)
+        self.rerun_on_output = False        # also run the transform on its own output (idempotence)
 
     def sample_source(self):
         d = {l.name: l.sample for l in self.leaves}
@@ -287,6 +288,15 @@ def run_skeleton(it, e3, skel, oracle, stats=None, deadline=None, max_paths=2000
                 pass
             world.run_module(it, ctx, p2, o2, r0, comments)
             posts.append(p2); diags_all.append(list(ctx.diags))
+        post2 = None
+        if skel.rerun_on_output:
+            from .interp import clone_val
+            post2 = clone_val(pre)
+            keep = ctx.diags
+            ctx.diags = []
+            world.run_module(it, ctx, post2, opts, r0, comments)
+            diags_all.append(list(ctx.diags))
+            ctx.diags = keep
         alt_pres = []; alt_posts = []
         for at in skel.alt_templates:
             ra = _parse_alt(e3, skel, at)
@@ -299,7 +309,7 @@ def run_skeleton(it, e3, skel, oracle, stats=None, deadline=None, max_paths=2000
             alt_pres.append(ia); alt_posts.append(pa); diags_all.append(list(ctx.diags))
         ctx.diags = diags_all[0]
         env = Env(inp, pre, ctx.diags, opts, ctx, skel, {'comments': comments, 'resp': r0, 'posts': posts, 'diags_all': diags_all, 'variants': skel.variants,
-                                                         'alt_pres': alt_pres, 'alt_posts': alt_posts})
+                                                         'alt_pres': alt_pres, 'alt_posts': alt_posts, 'post2': post2})
         ctx.env = env
         return oracle(env)
 
@@ -329,7 +339,7 @@ def run_skeleton(it, e3, skel, oracle, stats=None, deadline=None, max_paths=2000
             info = r.obligation.info if r.obligation is not None else None
             res['violations'].append({'skeleton': skel.sid, 'kind': r.kind, 'obligation': r.detail, 'source': src, 'options': o, 'tsx': skel.tsx,
                                       'info': _plain(r.model, info), 'variants': [{world.JSON_NAMES.get(k, k): v for k, v in ov.items()} for ov in skel.variants],
-                                      'alt_sources': [skel.render_source(r.model, at) for at in skel.alt_templates]})
+                                      'alt_sources': [skel.render_source(r.model, at) for at in skel.alt_templates], 'twice': skel.rerun_on_output})
         elif r.kind == 'budget':
             res['inconclusive'].append('%s: %s' % (skel.sid, r.detail))
         else:
@@ -391,7 +401,7 @@ def concretise(v, model):
 def native_check(e3, oracle, violation, skel_like=None):
     """re-run a solver witness on the real build and evaluate the same oracle on the native result.
        -> (reproduced: bool|None, detail)"""
-    r = e3.run(violation['source'], violation['options'], violation.get('tsx', False))
+    r = e3.run(violation['source'], violation['options'], violation.get('tsx', False), twice=bool(violation.get('twice')))
     if r.get('crash') or 'panic' in r:
         return True, {'native': 'panic', 'message': r.get('panic', 'process died (stack overflow / abort)')}
     if 'parse_error' in r:
@@ -415,7 +425,8 @@ def native_check(e3, oracle, violation, skel_like=None):
         if 'pre' not in ra:
             return None, {'native': 'parse_error', 'message': ra.get('parse_error')}
         alt_pres.append(astio.read_program(ra['pre'])); alt_posts.append(astio.read_program(ra['post'])); diags_all.append(list(ra.get('diags', [])))
-    env = Env(pre, post, cctx.diags, opts, cctx, skel_like, {'alt_pres': alt_pres, 'alt_posts': alt_posts, 'resp': r, 'comments': world.comments_map(r), 'code': r.get('code'), 'reparse_ok': r.get('reparse_ok'),
+    post2 = astio.read_program(r['post_twice']) if 'post_twice' in r else None
+    env = Env(pre, post, cctx.diags, opts, cctx, skel_like, {'post2': post2, 'alt_pres': alt_pres, 'alt_posts': alt_posts, 'resp': r, 'comments': world.comments_map(r), 'code': r.get('code'), 'reparse_ok': r.get('reparse_ok'),
                                                              'posts': posts, 'diags_all': diags_all, 'codes': codes,
                                                              'variants': [{world.RUST.get(k, k): v for k, v in ov.items()} for ov in (violation.get('variants') or [])]})
     try:
